@@ -6,10 +6,18 @@
   serde form, from C14), namespace proofs (both raw forms), merkle / row / share proofs, bad-encoding fraud
   proofs, block ranges' serde form (from C17), and the hex / base64 byte serializers of `proto/src/serializers`.
 
+  Strengthening round (last two sections): `Blob` ↔ `RawBlob` (`Blob::from_raw`, commitment = C12's model or any
+  function), `Blob` ↔ its JSON fields (`custom_serde::SerdeBlob` with `index_serde`, `signer_serde`, the
+  `Namespace` / `Commitment` / `base64string` field forms, `validate_blob`), and the lumina-owned part of
+  `ExtendedHeader` ↔ `RawExtendedHeader` (required messages in source order, `validate()` on decode, the inverse
+  `From`, the `custom_serde` JSON layer) — with exact acceptance conditions (`…_accepts_iff`).
+
   NOT proved (correspondence only, see registry/C46.json): prost's and serde_json's own encoders/decoders, and
-  the tendermint types inside ExtendedHeader; blobs (`Blob` ↔ `RawBlob` recomputes the commitment: C12).
+  tendermint's own conversions of Header / Commit / ValidatorSet inside ExtendedHeader (abstract parameters with
+  an explicit round-trip hypothesis in `eh_roundtrip`).
 -/
 import Lumina.Proofs.RoundTrip
+import Lumina.Proofs.RoundTripExt
 import Lumina.Spec.C46
 import Lumina.Props.C14
 import Lumina.Gen.C46
@@ -153,5 +161,178 @@ theorem hexstring_roundtrip (bs : Bytes) : hexUpperDecode (hexUpperEncode bs) = 
 
 theorem base64string_roundtrip (bs : Bytes) : Namespace.b64Decode (Namespace.b64Encode bs) = some bs :=
   Lumina.Proofs.Namespace.b64_roundtrip bs
+
+/-! ## blobs (strengthening round): `Blob` ↔ `RawBlob` (BlobProto), `Blob` ↔ JSON -/
+
+/-- protobuf form, for ANY commitment function `commit` (`Commitment::from_blob`): a blob whose commitment is the
+    one `commit` computes for app version `av` (i.e. `Blob::validate(av)` is `Ok`), without an index, comes back
+    from `Blob::from_raw(RawBlob::from(b), av)` -/
+theorem blob_pb_roundtrip {C E : Type} (commit : Bytes → Bytes → Nat → Option Bytes → Nat → Except E C) (av : Nat)
+    (b : BlobV C) (h : ValidBlobPb commit av b) : blobFromRaw commit (blobToRaw b) av = .ok b :=
+  Lumina.Proofs.RoundTrip.blob_pb_roundtrip commit av b h
+
+/-- the same with C12's model of `Commitment::from_blob` (any hash functions): the commitment condition is
+    `Blob::validate(av) = Ok(())` as modelled for C12 -/
+theorem blob_pb_roundtrip_c12 {D : Type} [DecidableEq D] (H : Merkle.HashFns D) (h : Nmt.HashFn) (av : Nat) (b : BlobV D)
+    (h1 : Namespace.fromRaw b.ns = .ok b.ns) (h2 : b.shareVersion ≤ 255)
+    (h3 : ∀ s, b.signer = some s → s.length = ACC_ADDRESS_LEN) (h4 : b.index = none)
+    (hval : Commitment.validate H h ⟨b.ns, b.data, b.shareVersion, b.signer⟩ b.commitment av = .ok) :
+    blobFromRaw (Commitment.fromBlob H h) (blobToRaw b) av = .ok b :=
+  Lumina.Proofs.RoundTrip.blob_pb_roundtrip _ av b ⟨h1, h2, h3, h4, (validate_ok_iff H h _ _ av).1 hval⟩
+
+set_option maxRecDepth 100000 in
+example : ValidBlobPb (fun _ d _ _ _ => (Except.ok d : Except Unit Bytes)) 3
+    ⟨List.replicate 29 0, [1, 2, 3], 1, [1, 2, 3], none, some (List.replicate 20 9)⟩ := by
+  refine ⟨by rfl, by decide, ?_, rfl, rfl⟩
+  intro s hs; injection hs with hs; subst hs; rfl
+
+/-- FINDING (open, `C46/blob-index-not-on-wire`): `BlobProto` has no `index` field.  EVERY otherwise valid blob
+    that carries an index (a blob retrieved from chain) decodes from its own protobuf form to a DIFFERENT value:
+    the same blob without the index. -/
+theorem blob_index_not_on_wire_counterexample {C E : Type}
+    (commit : Bytes → Bytes → Nat → Option Bytes → Nat → Except E C) (av : Nat) (b : BlobV C) (i : Nat)
+    (hi : b.index = some i)
+    (h1 : Namespace.fromRaw b.ns = .ok b.ns) (h2 : b.shareVersion ≤ 255)
+    (h3 : ∀ s, b.signer = some s → s.length = ACC_ADDRESS_LEN)
+    (h5 : commit b.ns b.data b.shareVersion b.signer av = .ok b.commitment) :
+    blobFromRaw commit (blobToRaw b) av = .ok { b with index := none } ∧ ({ b with index := none } : BlobV C) ≠ b := by
+  refine ⟨blob_pb_roundtrip_upto_index commit av b h1 h2 h3 h5, ?_⟩
+  intro e
+  have : ({ b with index := none } : BlobV C).index = b.index := by rw [e]
+  rw [hi] at this
+  cases this
+
+set_option maxRecDepth 100000 in
+/-- a concrete instance (hypotheses of the counterexample theorem are satisfiable) -/
+example : (⟨List.replicate 29 0, [7], 0, [7], some 5, none⟩ : BlobV Bytes).index = some 5 ∧
+    Namespace.fromRaw (List.replicate 29 0) = .ok (List.replicate 29 0) := ⟨rfl, by rfl⟩
+
+/-- exactly which raw blobs `Blob::from_raw` accepts and what it makes of them; every other raw blob is rejected
+    (namespace error, share version above 255, or an error of `Commitment::from_blob`, whose first step is
+    `validate_blob(share_version, signer.is_some(), Some(app_version))`) -/
+theorem blob_from_raw_accepts_iff {C E : Type}
+    (commit : Bytes → Bytes → Nat → Option Bytes → Nat → Except E C) (r : RawBlob) (av : Nat) (b : BlobV C) :
+    blobFromRaw commit r av = .ok b ↔
+      ∃ ns c, Namespace.new (UInt8.ofNat r.namespaceVersion) r.namespaceId = .ok ns ∧
+        r.shareVersion ≤ 255 ∧ commit ns r.data r.shareVersion (signerOfRaw r.signer) av = .ok c ∧
+        b = { ns := ns, data := r.data, shareVersion := r.shareVersion, commitment := c, index := none,
+              signer := signerOfRaw r.signer } :=
+  blobFromRaw_ok_iff commit r av b
+
+/-- two consequences of the code as it is (observations, not violations of the round trip): `raw.namespace_version
+    as u8` wraps, so version 256 is read as version 0; a `signer` that is not 20 bytes long is silently dropped -/
+theorem blob_from_raw_lenient {C E : Type} (commit : Bytes → Bytes → Nat → Option Bytes → Nat → Except E C)
+    (r : RawBlob) (av : Nat) :
+    blobFromRaw commit { r with namespaceVersion := r.namespaceVersion + 256 } av = blobFromRaw commit r av ∧
+    (r.signer.length ≠ ACC_ADDRESS_LEN → signerOfRaw r.signer = none) := by
+  constructor
+  · have : UInt8.ofNat (r.namespaceVersion + 256) = UInt8.ofNat r.namespaceVersion := by
+      apply UInt8.toNat_inj.1
+      simp [UInt8.toNat_ofNat']
+    simp only [blobFromRaw, this]
+  · intro h; simp [signerOfRaw, h]
+
+/-- `validate_blob(share_version, has_signer, None)` accepts exactly: version 0 without signer, version 1 with -/
+theorem validate_blob_no_app_spec (sv : Nat) (hs : Bool) :
+    validateBlobNoApp sv hs = .ok () ↔ (sv = 0 ∧ hs = false) ∨ (sv = 1 ∧ hs = true) := by
+  unfold validateBlobNoApp
+  cases hs <;> by_cases h0 : sv = 0 <;> by_cases h1 : sv = 1 <;> simp [h0, h1] <;> omega
+
+/-- JSON form (`custom_serde::SerdeBlob` and the field (de)serializers lumina owns): every blob the JSON form can
+    carry serializes, and deserializes to itself — index and commitment included -/
+theorem blob_json_roundtrip (b : BlobV Bytes) (h : ValidBlobJson b) :
+    ∃ j, blobToJson b = some j ∧ blobFromJson j = .ok b :=
+  Lumina.Proofs.RoundTrip.blob_json_roundtrip b h
+
+set_option maxRecDepth 100000 in
+example : ValidBlobJson ⟨List.replicate 29 0, [1, 2, 3], 1, List.replicate 32 4, some 77, some (List.replicate 20 9)⟩ := by
+  refine ⟨by rfl, by rfl, Or.inr ⟨rfl, _, rfl, rfl⟩, ?_⟩
+  intro i hi; injection hi with hi; subst hi; decide
+
+/-- exactly which JSON objects `Deserialize for Blob` accepts: every field deserializer succeeds (valid base64
+    namespace, base64 data, 32-byte base64 commitment, signer absent / null / empty or 20 bytes), `share_version`
+    is a `u8`, and `validate_blob` accepts the (share version, signer) combination.  The commitment is NOT
+    recomputed (a foreign 32-byte commitment is accepted; `Blob::validate` is the caller's job). -/
+theorem blob_json_accepts_iff (j : JsonBlob) (b : BlobV Bytes) :
+    blobFromJson j = .ok b ↔
+      ∃ ns data c signer, Namespace.deserialize j.ns = some ns ∧ Namespace.b64Decode j.data = some data ∧
+        commitmentFromWire j.commitment = some c ∧ signerFromWire j.signer = some signer ∧
+        j.shareVersion ≤ 255 ∧ validateBlobNoApp j.shareVersion signer.isSome = .ok () ∧
+        b = { ns := ns, data := data, shareVersion := j.shareVersion, commitment := c,
+              index := (match j.index with | none => none | some v => indexFromWire v), signer := signer } :=
+  blobFromJson_ok_iff j b
+
+/-! ## extended headers (strengthening round): the lumina-owned conversion layer -/
+
+section ExtendedHeader
+variable {H C V RH RC RV : Type}
+
+/-- `ExtendedHeader::try_from(RawExtendedHeader::from(eh)) = Ok(eh)` for every header that passes `validate()`,
+    GIVEN that tendermint's own conversions round-trip on its three components (explicit hypotheses: they are
+    third-party code, observed by the correspondence) -/
+theorem eh_roundtrip (T : TmConv H C V RH RC RV) (validate : Eh H C V → Bool) (eh : Eh H C V)
+    (hh : T.hFrom (T.hTo eh.header) = some eh.header)
+    (hc : T.cFrom (T.cTo eh.commit) = some eh.commit)
+    (hv : T.vFrom (T.vTo eh.validatorSet) = some eh.validatorSet)
+    (hr : ∀ x ∈ eh.dah.rowRoots, x.WF) (hcr : ∀ x ∈ eh.dah.colRoots, x.WF)
+    (hval : validate eh = true) :
+    ehFromRaw T validate (ehToRaw T eh) = .ok eh :=
+  Lumina.Proofs.RoundTrip.eh_roundtrip T validate eh hh hc hv hr hcr hval
+
+/-- a conversion record meeting the hypotheses (identity conversions on naturals) and a header for it -/
+example : ehFromRaw (⟨id, some, id, some, id, some⟩ : TmConv Nat Nat Nat Nat Nat Nat) (fun eh => eh.header == 5)
+    (ehToRaw ⟨id, some, id, some, id, some⟩ ⟨5, 6, 7, ⟨[], []⟩⟩) = .ok ⟨5, 6, 7, ⟨[], []⟩⟩ :=
+  Lumina.Proofs.RoundTrip.eh_roundtrip _ _ _ rfl rfl rfl (by simp) (by simp) rfl
+
+/-- exactly which raw headers are accepted: all four messages present, each converts, and the assembled header
+    passes `validate()`; everything else is rejected -/
+theorem eh_from_raw_accepts_iff (T : TmConv H C V RH RC RV) (validate : Eh H C V → Bool)
+    (r : RawEh RH RC RV) (eh : Eh H C V) :
+    ehFromRaw T validate r = .ok eh ↔
+      ∃ rh rc rv rd, r.header = some rh ∧ r.commit = some rc ∧ r.validatorSet = some rv ∧ r.dah = some rd ∧
+        T.hFrom rh = some eh.header ∧ T.cFrom rc = some eh.commit ∧ T.vFrom rv = some eh.validatorSet ∧
+        dahFromRaw rd = some eh.dah ∧ validate eh = true :=
+  ehFromRaw_ok_iff T validate r eh
+
+/-- decoding validates: whatever `TryFrom<RawExtendedHeader>` returns passes `ExtendedHeader::validate`
+    (the fact the store models of C19–C21 use as `decodeHeader`) -/
+theorem eh_decoded_is_valid (T : TmConv H C V RH RC RV) (validate : Eh H C V → Bool)
+    (r : RawEh RH RC RV) (eh : Eh H C V) (h : ehFromRaw T validate r = .ok eh) : validate eh = true := by
+  obtain ⟨_, _, _, _, _, _, _, _, _, _, _, _, hv⟩ := (ehFromRaw_ok_iff T validate r eh).1 h
+  exact hv
+
+/-- the error for a missing message, in source order: the FIRST absent message decides, provided the messages
+    before it convert -/
+theorem eh_missing_message_rejected (T : TmConv H C V RH RC RV) (validate : Eh H C V → Bool) (r : RawEh RH RC RV) :
+    (r.header = none → ehFromRaw T validate r = .error .missingHeader) ∧
+    (∀ rh h, r.header = some rh → T.hFrom rh = some h → r.commit = none →
+      ehFromRaw T validate r = .error .missingCommit) ∧
+    (∀ rh h rc c, r.header = some rh → T.hFrom rh = some h → r.commit = some rc → T.cFrom rc = some c →
+      r.validatorSet = none → ehFromRaw T validate r = .error .missingValidatorSet) ∧
+    (∀ rh h rc c rv v, r.header = some rh → T.hFrom rh = some h → r.commit = some rc → T.cFrom rc = some c →
+      r.validatorSet = some rv → T.vFrom rv = some v → r.dah = none →
+      ehFromRaw T validate r = .error .missingDah) := by
+  refine ⟨fun h => ?_, fun rh h e1 e2 e3 => ?_, fun rh h rc c e1 e2 e3 e4 e5 => ?_,
+    fun rh h rc c rv v e1 e2 e3 e4 e5 e6 e7 => ?_⟩
+  · simp [ehFromRaw, h]
+  · simp [ehFromRaw, e1, e2, e3]
+  · simp [ehFromRaw, e1, e2, e3, e4, e5]
+  · simp [ehFromRaw, e1, e2, e3, e4, e5, e6, e7]
+
+/-- a raw header whose four messages convert but whose assembly fails `validate()` is rejected -/
+theorem eh_invalid_rejected (T : TmConv H C V RH RC RV) (validate : Eh H C V → Bool)
+    (rh : RH) (rc : RC) (rv : RV) (rd : RawDah) (h : H) (c : C) (v : V) (d : Dah)
+    (e1 : T.hFrom rh = some h) (e2 : T.cFrom rc = some c) (e3 : T.vFrom rv = some v) (e4 : dahFromRaw rd = some d)
+    (hval : validate ⟨h, c, v, d⟩ = false) :
+    ehFromRaw T validate ⟨some rh, some rc, some rv, some rd⟩ = .error .invalid := by
+  simp [ehFromRaw, e1, e2, e3, e4, hval]
+
+/-- the JSON layer lumina puts around the prost-generated structures (`custom_serde::SerdeExtendedHeader`,
+    `SerdeCommit`) is a pair of mutually inverse field copies: it loses and adds nothing -/
+theorem eh_serde_layer_roundtrip {B S : Type} (r : RawEh RH (RawCommit B S) RV) (s : SerdeEh RH B S RV) :
+    rawEhOfSerde (serdeEhOfRaw r) = r ∧ serdeEhOfRaw (rawEhOfSerde s) = s :=
+  serde_eh_layer r s
+
+end ExtendedHeader
 
 end Lumina.Props.C46
